@@ -64,7 +64,8 @@ TickClauses(e) ==
        <<"C10.simulations-cleared", RunEnded(e) /\ ~e.started => e.simulated = <<>> >>,
        <<"C10.run-id-cleared", RunEnded(e) /\ ~e.started => e.runId = 0>>,
        <<"C10.restart-from-first-line", newRun /\ e.firstLine # "" => e.firstLine = "L1">>,
-       <<"C12.cancelled-watch-never-runs", SetOfSeq(e.bodyStarted) \cap cancelledWatch = {}>>,
+       \* (a cancel belongs to one invocation: a Watch in an alarm or macro body that was reset since runs again in the next one)
+       <<"C12.cancelled-watch-never-runs", SetOfSeq(e.bodyStarted) \cap (cancelledWatch \ SetOfSeq(e.resetNow)) = {}>>,
        <<"C12.cancelled-command-finalized", mustFinalize \subseteq finalized>>,
        <<"C12.cancelled-pause-ends", mustUnpause /\ ~otherPause => ~e.paused \/ e.err>>,
        <<"C12.cancelled-hold-ends", mustUnhold /\ ~otherHold => ~e.holding>>,
@@ -140,7 +141,8 @@ Step ==
                            ELSE IF e.firstLine # "" \/ ~e.started THEN FALSE ELSE newRun
               /\ IF RunEnded(e) THEN inited' = {} /\ execed' = {} /\ finalized' = {} /\ cancelledWatch' = {}
                                       /\ otherPause' = FALSE /\ otherHold' = FALSE
-                 ELSE UNCHANGED <<inited, execed, finalized, cancelledWatch, otherPause, otherHold>>
+                 ELSE /\ cancelledWatch' = cancelledWatch \ SetOfSeq(e.resetNow)
+                      /\ UNCHANGED <<inited, execed, finalized, otherPause, otherHold>>
     /\ l' = l + 1 /\ seen' = seen \cup Witness(T[l]) /\ UNCHANGED <<tid, done>>
 
 Finish == /\ l = Len(T) + 1 /\ ~done /\ done' = TRUE /\ ReportW(Traces[tid].id, l - 1, viols, seen) /\ UNCHANGED <<mvars, seen, tid, l, viols>>
